@@ -10,7 +10,6 @@ CLAIMED = {
    ref="DESIGN.md §4 C20"),
 }
 NA = {
- "C03": "Day / week addition is exact only if the month-by-month, year-by-year and week carries (__ymd_fixup_d, __yd_fixup_d, __ywd_fixup_w, __ymcw_fixup_c) land on the right calendar day: loops whose trip count and step depend on table lookups (days per month, weeks per year, weekday of the 1st) indexed by the running value. Neither the interval / difference-bound domain nor the linear and polynomial summaries built here can express `the day count of the result equals the day count of the input plus n` across such a loop, and no clause of the property is visible in the shape of the code alone (the dispatch is already covered under C01/C04). A bounded model check or exhaustive run would decide it, but that is a different technique family.",
  "C05": "Inverse-of-addition quantifies over pairs of computed values: __ymd_diff / __yd_diff borrow from month and year lengths looked up per operand (the February double borrow, the leap-day matrix) and the property relates their result to what dt_dadd computes from it. The only structural clauses -- choice of duration type from the format, 64-bit day*seconds products, sign handling of the printed duration -- are decided under C06; the arithmetic agreement of two independent multi-step routines over all pairs is out of reach of dataflow, typestate or table rules.",
  "C16": "Nearest-target rounding and idempotence compare the result with every other candidate date/time ('nearest on the requested side') and with a second application of the same routine; dround's routines compute the result through calendar conversions and modular arithmetic on run-time values. No clause of it is a pairing, ordering, ownership or table-agreement fact; the one memory-safety style observation (unchecked `% sdur` divisor) is reported as a note under C10's divisor rule.",
 }
@@ -123,6 +122,13 @@ CLAIMED["C07"] = dict(
    note="That the closed forms count Monday-Friday days exactly for every (weekday, count), the month tables of business days and the bizda <-> ymd conversions are NOT decided: they are value-level facts. This is a thin claim and says so.",
    technique="static analysis: interval abstract interpretation of % operands in the integers, switch coverage against the operand interval, sibling constant agreement",
    ref="DESIGN.md §4 C07")
+
+
+CLAIMED["C03"] = dict(
+   text="Decides the structure all four carry routines share (__ymd_fixup_d, __yd_fixup_d, __ymcw_fixup_c, __ywd_fixup_w), each item a necessary condition of exact day / week addition: the value is kept as is only within 1..L with L not above the shortest period (28, 365, 4, 52); the forward loop is `while (x > (len = LEN(current position))) x -= len` -- strict comparison, length of the period being left, taken before the position advances, subtracted once; the backward loop moves the position first, then adds LEN(new position) once, and repeats while x < 1 -- so the result lies in 1..LEN(final position); the month wraps are (++m > 12: ++y, m = 1) and (--m < 1: --y, m = 12) and the month stays in 1..12 (interval analysis); a week is 7 days (ymd, yd, bizda, day counts) or one unit of the week count handed to the week carry (ywd, ymcw); dt_dadd_d / dt_dadd_w dispatch every calendar to its adder (12 pairs).",
+   note="That the result is the day exactly n days away is NOT decided: it depends on the period lengths the loops look up (tables under C01) and on the weekday / hang bookkeeping of the week calendars. A carry routine rewritten without these loops is reported as not recognised (exit 2).",
+   technique="static analysis: loop shape / statement order rules on the AST and CFG, interval analysis of the month, constant and dispatch agreement",
+   ref="DESIGN.md §4 C03")
 
 
 def main():
